@@ -481,7 +481,7 @@ def c19(tier, seed):
         units += shards("hist-" + tag, "hist", 1 if q else 6, seed + vi, dict(histories=4 if q else 12, len=40), variant=v)
         units += shards("dirty-" + tag, "dirty", 1, seed + vi, dict(), variant=v)
         units += cfg_shards("copy-" + tag, "copy", NR, seed + vi, dict(rpaths=RP, wpaths=WP, full=0),
-                            pick=pick_cfgs(NR, 1 if q else 8, seed + vi), variant=v)
+                            pick=pick_cfgs(NR, 2 if q else 8, seed + vi), variant=v)     # 2: the same configuration in both endiannesses
         units += cfg_shards("codes-" + tag, "codes", 15, seed + vi, dict(mode="alone", full=0),
                             pick=pick_cfgs(15, 1 if q else 6, seed + vi), variant=v)
         # byte writes are cheap: every writer configuration in every variant
